@@ -647,3 +647,19 @@ Example C16_example_walked :
                        (hd {| df_name := []; df_verb := 0; df_parts := []; df_req := []; df_resp := None |} (all_methods ex_list_pkg))) = Some l
             /\ l <> [].
 Proof. eexists. split; [vm_compute; reflexivity|discriminate]. Qed.
+
+(* ---- the arms of buildListRequest's callback as probes of list_step (proofs/PipelineListProbeProofs.v) ----------
+   gen/SwaggerGen.v list_scalar_arms / list_enum_arm: for every arm of the Go switch on the scalar field type the
+   add* functions its body calls (re-read from internal/j5client/list.go on every run). list_step, run on an item
+   object with one property of that type whose list rules carry all three constraints, lists the property in exactly
+   those lists; object / oneof references are walked into, not listed. *)
+From J5V.proofs Require Import PipelineListProbeProofs.
+
+Theorem C16_list_arms_probe :
+  forallb (fun arm => lp_not_scalar (fst arm) || Corr.list_eqb String.eqb (lp_calls (TScalar (fst arm))) (snd arm))
+          SwaggerGen.list_scalar_arms = true
+  /\ Corr.list_eqb String.eqb (lp_calls (TRef "enum" (bytes_of "p.v1", bytes_of "Kind"))) SwaggerGen.list_enum_arm = true
+  /\ length SwaggerGen.list_scalar_arms = 14%nat
+  /\ lp_calls (TRef "object" lp_root) = [] /\ lp_calls (TRef "oneof" lp_root) = [].
+Proof. exact list_arms_probe. Qed.
+Print Assumptions C16_list_arms_probe.
